@@ -253,18 +253,44 @@ def check_family(run, prop, scripts, tag, also=(), kind="broker", known=None, re
                     run.note("scenario %d is rejected by the strict specification at %s but accepted by the relaxed one (%s), which keeps every "
                              "property: not a violation" % (tr, res2[tr]["event"].get("ev"), "+".join(relaxed)))
                     res2[tr] = {"ok": True, "relaxed": True}
+        flaky = []
         for tr in rejected:
             if tr in res2 and res2[tr].get("relaxed"):
                 final[tr] = {"ok": True, "relaxed": True}
             elif tr in res2 and res2[tr].get("known"):
                 final[tr] = {"ok": True, "known": res2[tr]["known"]}
             elif tr in res2 and res2[tr]["ok"]:
-                run.note("scenario %d rejected at %s on the first run but accepted when re-driven slowly (timing of the driver, not reported)"
-                         % (tr, res[tr]["event"].get("ev")))
+                flaky.append(tr)
                 final[tr] = {"ok": True, "flaky": True}
             elif tr in res2:
                 final[tr] = res2[tr]
                 final[tr]["trace"] = trace_of(events2, tr)
+        # a rejection that did not repeat when re-driven slowly: either the driver declared quiescence too early (not a verdict) or the
+        # code behaves differently from run to run (a race, a random select).  A tagged guard that failed at a gomqtt event is tried
+        # again several times at normal speed; it is reported only if the same guard fails again (observed twice on the real code).
+        retry = [tr for tr in flaky if res[tr]["guards"] and res[tr]["event"].get("ev") not in HARNESS_EVENTS and res[tr]["event"].get("ev") not in ("settle", "probe")]
+        if retry:
+            copies = []
+            for tr in retry[:12]:
+                for k in range(4):
+                    c = json.loads(json.dumps(byid[tr]))
+                    c["id"] = 700000 + tr * 10 + k
+                    copies.append(c)
+            t3, _ = run_scripts(run, copies, tag + ".again", kind=kind)
+            res5, events5, _ = validate(run, t3, tag + ".again", kind=kind)
+            for tr in retry[:12]:
+                names = {n for _, n in res[tr]["guards"]}
+                for k in range(4):
+                    x = res5.get(700000 + tr * 10 + k)
+                    if x and not x["ok"] and names & {n for _, n in x["guards"]}:
+                        final[tr] = x
+                        final[tr]["trace"] = trace_of(events5, 700000 + tr * 10 + k)
+                        final[tr]["repeated"] = True
+                        break
+        for tr in flaky:
+            if final[tr].get("ok"):
+                run.note("scenario %d rejected at %s on the first run but accepted when re-driven slowly (timing of the driver, not reported)"
+                         % (tr, res[tr]["event"].get("ev")))
     nacc = sum(1 for x in final.values() if x["ok"])
     out = []
     for tr, x in sorted(final.items()):
